@@ -1,8 +1,21 @@
 #!/bin/sh
 # Build the analysis environment offline: an overlay venv of /venv with crosshair-tool (+z3) from the wheelhouse.
-# Idempotent; safe to call from every check.
+# Idempotent; every check calls it.  The venv lives next to this checkout (<verif>/.venv), so a snapshot builds its own.
 set -e
-V=/verif/.venv
+HERE=$(cd "$(dirname "$0")/.." && pwd)
+V="$HERE/.venv"
+if [ -x "$V/bin/python" ] && "$V/bin/python" -c "import crosshair, z3, xsdata" 2>/dev/null; then
+  exit 0
+fi
+# another check may be building it right now: serialise on a lock directory
+LOCK="$HERE/.venv.lock"
+i=0
+while ! mkdir "$LOCK" 2>/dev/null; do
+  i=$((i+1)); [ $i -gt 300 ] && break
+  sleep 1
+  if [ -x "$V/bin/python" ] && "$V/bin/python" -c "import crosshair, z3, xsdata" 2>/dev/null; then exit 0; fi
+done
+trap 'rmdir "$LOCK" 2>/dev/null || true' EXIT
 if [ -x "$V/bin/python" ] && "$V/bin/python" -c "import crosshair, z3, xsdata" 2>/dev/null; then
   exit 0
 fi
